@@ -5,3 +5,4 @@ import Gomjml.Props.C15
 #print axioms Gomjml.Props.C15.C15_one_cleaner
 #print axioms Gomjml.Props.C15.C15_stop_then_restart
 #print axioms Gomjml.Props.C15.C15_sites
+#print axioms Gomjml.Props.C15.C15_waiter_gets_own_parse
